@@ -4,7 +4,7 @@ MC      MC_Builders: every request flag word (quick: every 16th) x 0..2 question
         the reply is a response to the request, survives encode / reference decode, idempotent, untouched fields, TSIG last
 GEN     Gen_Builders (messages travel as octets; the harness makes *dns.Msg with the real Unpack, applies the real builder,
         compares header struct, question entries, section sizes AND the real Pack's octets with the admissible results):
-          reply   every flag word (quick: 2 of 16 shards) x 0..2 questions: SetReply; every 16th word also on a used
+          reply   every flag word (quick: 4 of 16 shards) x 0..2 questions: SetReply; every 16th word also on a used
                   receiver, SetRcode(3 | 16 = unpackable without OPT), SetRcodeFormatError; reply owns its question slice
           chain   every sequence of <= 3 of 12 builder calls (SetQuestion SetNotify SetUpdate SetAxfr SetIxfr SetTsig SetReply
                   SetRcode SetRcodeFormatError) from a fresh and a used message, compared after every step
@@ -27,6 +27,7 @@ Mutants (checks/mutants/X12), all exit 1:
   tsig-origid           SetTsig leaves OrigId 0                        builders/SetTsig:octets
   istsig-anywhere       IsTsig accepts a TSIG that is not last         builders/istsig
   ismsg-11              IsMsg accepts 11 octets                        builders/ismsg
+  ixfr-ttl-zero         SetIxfr's SOA has TTL 0                        builders/SetIxfr:octets
 """
 import os, json
 import vp
@@ -48,7 +49,7 @@ def run(ctx):
     jobs = [gen(ctx, binp, m) for m in ("chain", "pos", "rrset", "text", "ismsg")]
     if ctx.quick:
         ctx.tlc("MC_Builders", consts={"Stride": 16, "Off": ctx.seed % 16}, workers=4, xmx="3g", timeout=900)
-        jobs += [gen(ctx, binp, "reply", (ctx.seed * 2 + k) % 16, 16) for k in (0, 1)]
+        jobs += [gen(ctx, binp, "reply", (ctx.seed * 4 + k) % 16, 16) for k in range(4)]
     else:
         ctx.tlc("MC_Builders", consts={"Stride": 1, "Off": 0}, workers=4, xmx="4g", timeout=3000)
         jobs += [gen(ctx, binp, "reply", k, 16) for k in range(16)]
@@ -58,7 +59,7 @@ def run(ctx):
         "IsEdns0 with several OPT records may return any of them; IsRRset of the empty list is not judged; owners that differ only by a missing final dot: either answer",
         "builders that call Id() leave the id unconstrained; messages reach the builders through the real Unpack (C01 judges that)",
     ]
-    return ctx.finish(rule="vectors: request flag words x 0..2 questions (quick 8 192 words, thorough all 65 536) + used receiver / SetRcode / "
+    return ctx.finish(rule="vectors: request flag words x 0..2 questions (quick 16 384 words, thorough all 65 536) + used receiver / SetRcode / "
                       "SetRcodeFormatError on every 16th; 3 768 builder chains; 40 additional-section shapes; 2 320 RR lists; 19 608 texts. "
                       "distinct = distinct inputs")
 
